@@ -29,6 +29,7 @@ type Reader struct {
 	bytes   atomic.Int64
 	calls   atomic.Int64
 	eofCall atomic.Int64
+	inRead  atomic.Int32
 	mu      sync.Mutex
 }
 
@@ -36,6 +37,8 @@ type Reader struct {
 func NewReader(data []byte) *Reader { return &Reader{data: data} }
 
 func (r *Reader) Read(p []byte) (int, error) {
+	r.inRead.Add(1)
+	defer r.inRead.Add(-1)
 	call := r.calls.Add(1)
 	if r.FailAt > 0 && call >= r.FailAt {
 		return 0, r.FailErr
@@ -70,6 +73,9 @@ func (r *Reader) Read(p []byte) (int, error) {
 
 // Bytes returns the number of bytes served so far.
 func (r *Reader) Bytes() int64 { return r.bytes.Load() }
+
+// InRead reports whether some goroutine is inside Read right now.
+func (r *Reader) InRead() bool { return r.inRead.Load() > 0 }
 
 // EOFCall returns the index of the first Read call that returned io.EOF (0 = none yet).
 func (r *Reader) EOFCall() int64 { return r.eofCall.Load() }
